@@ -159,6 +159,27 @@ func RunSaga(c *core.Ctx) {
 	} else {
 		args = append(args, saga.ProximalOperator{Value: &saga.ProximalOperatorL1{Lambda: 0}})
 	}
+	if t.Bool(1, 5) {
+		// invalid option value: a negative regularisation constant must be
+		// reported, whichever of the three it is
+		which := t.Choose(3)
+		val := -float64(t.Range(1, 8)) / 4
+		bad := []interface{}{saga.L1Regularization{Value: val}, saga.L2Regularization{Value: val}, saga.TikhonovRegularization{Value: val}}[which]
+		optName := []string{"L1Regularization", "L2Regularization", "TikhonovRegularization"}[which]
+		c.Logf("invalid option: %s{%g}", optName, val)
+		var err error
+		pv, _ := core.Try(func() {
+			_, _, err = saga.Run(f, n, ad.NewDenseFloat64Vector(append([]float64{}, x0...)), saga.Gamma{Value: gamma}, saga.Epsilon{Value: eps}, saga.Seed{Value: seed}, saga.MaxIterations{Value: 3}, bad)
+		})
+		c.Nontriv = true
+		c.Count("misuse:invalid-option-value")
+		c.StateStr(fmt.Sprint("saga-invalid-option", variant, which))
+		c.Sample = map[string]interface{}{"algorithm": "saga." + name, "invalid_option": fmt.Sprintf("%s{%g}", optName, val)}
+		if pv == nil && err == nil {
+			c.Fail("loud-failure", "saga|invalid-option-value|silently-accepted", "saga.Run with %s{%g} returned without error", optName, val)
+		}
+		return
+	}
 	var err error
 	pv, site := core.Try(func() { _, _, err = saga.Run(f, n, ad.NewDenseFloat64Vector(append([]float64{}, x0...)), args...) })
 	c.Nontriv = true
